@@ -404,6 +404,16 @@ class AEval(dtable.Eval):
             return self.ex(e["expr"], env)
         if k == "Cast":
             v = self.ex(e["expr"], env)
+            ty_ = str(e.get("ty", "")).replace(" ", "")
+            if v[0] == "int" and ty_ == "f32":
+                # a narrowing cast: the nearest f32 (integral counts beyond 2^24 change)
+                import struct as _st
+                nv = _st.unpack("f", _st.pack("f", float(v[1])))[0]
+                return I(int(nv)) if nv == int(nv) else v
+            if v[0] == "int" and ty_ in ("u8", "i8", "u16", "i16", "u32", "i32"):
+                bits = int(ty_[1:])
+                w = v[1] & ((1 << bits) - 1)
+                return I(w - (1 << bits) if ty_[0] == "i" and w >= 1 << (bits - 1) else w)
             return I(v[1]) if v[0] == "char" else v
         if k == "Range":
             lo = self.ex(e["start"], env) if is_node(e.get("start")) else I(0)
